@@ -9,6 +9,8 @@ import NurbsVerif.Lemmas.A54Helper
 import NurbsVerif.Lemmas.A54Kv2
 import NurbsVerif.Lemmas.KnotRowsRefineVol
 import NurbsVerif.Lemmas.UniqueRemove
+import NurbsVerif.Lemmas.RefineCodedObj
+import NurbsVerif.Lemmas.RefineCurveObj
 
 /-!
 # C05  Knot refinement never changes the shape
@@ -684,5 +686,159 @@ theorem refinement_net_unique (p d : ℕ) (tol : K) (X : List K) (st : List K ×
 
 /-- non-vacuity of `AllActive` on a refined knot vector (the density-1 refinement of the quadratic of (A)) -/
 example : AllActive 2 9 (fnOf ([0,0,0,1/4,1/4,1/2,1/2,3/4,3/4,1,1,1] : List ℚ)) := by decide +kernel
+
+/-! ## (G) the object-level operation with A5.4 AS CODED (`refineDirCoded`, `refineKnotvectorCoded`)
+
+`refineDirCoded` / `refineKnotvectorCoded` are `refineDir` / `refineKnotvector` with every helper call replaced by the
+literal transcription of A5.4: `refineA54` on every iso-curve of a curve or a surface (the new knot vector is the
+`new_kv` of the LAST helper call of the loop over the iso-curves, `Shape.lastIso`), ONE call of `refineA54Rows` on the
+gathered rows for a volume (`refineVolRows`).  They are run against `operations.refine_knotvector` by the
+correspondence check (`refc`).  Hypotheses per refined direction, on the ORIGINAL object: `DirHyp` (clamped end,
+tolerance separation of the old knots and the bisection knots) and `DirHypA54` (the two extra hypotheses of
+`refineA54_eq_insert_fold`: clamped at the start, no value more than `p + 1` times).
+`CurveObjWF d S`: a shape with one direction, `size = len(ctrlpts)`, `CurveWF`; `curveEval S u` its curve point. -/
+
+/-- **`refine_knotvector` on a curve object (specification-level model) keeps every curve point**; the result is a
+    well-formed curve object over the same domain, whether or not the call completed. -/
+theorem refineKnotvector_preserves_curve (d : ℕ) (S : Shape K) (hS : CurveObjWF d S) (dens : List ℕ) (tol : K)
+    (h0 : 0 ≤ tol) (hd : dens.getD 0 0 ≠ 0 → DirHyp S 0 (dens.getD 0 0) tol)
+    (u : K) (hlo : fnOf (S.kv 0) (S.deg 0) ≤ u) (hhi : u ≤ fnOf (S.kv 0) (S.size 0)) (j : ℕ) :
+    CurveObjWF d (refineKnotvector S dens tol).1 ∧
+    (curveEval (refineKnotvector S dens tol).1 u).getD j 0 = (curveEval S u).getD j 0 :=
+  ⟨(refineKnotvector_curve' d S hS dens tol h0 hd).1, (refineKnotvector_curve' d S hS dens tol h0 hd).2.2.2 u hlo hhi j⟩
+
+/-- **The direction step on a curve object, A5.4 as coded on the control polygon = `refineDir`** (which is the
+    helper-level `knotRefinement`, `refineDir_curve_is_helper`). -/
+theorem refineDir_as_coded_eq_model_curve (d : ℕ) (S : Shape K) (hS : CurveObjWF d S) (density : ℕ) (tol : K)
+    (h0 : 0 ≤ tol) (hyp : DirHyp S 0 density tol) (ha : DirHypA54 S 0) :
+    refineDirCoded S 0 density tol = refineDir S 0 density tol :=
+  refineDirCoded_curve d S density tol h0 hS.degs hS.size hS.wf hyp ha
+
+/-- **One direction of a surface, A5.4 as coded on every iso-curve = `refineDir`** (u direction `dir = 0`: every
+    column; v direction `dir = 1`: every row; knot vector of the last helper call). -/
+theorem refineDir_as_coded_eq_model_surface (d : ℕ) (S : Shape K) (hS : SurfWF d S) (dir : ℕ) (hdir : dir < 2)
+    (density : ℕ) (tol : K) (h0 : 0 ≤ tol) (hyp : DirHyp S dir density tol) (ha : DirHypA54 S dir) :
+    refineDirCoded S dir density tol = refineDir S dir density tol :=
+  refineDirCoded_surface d S density tol h0 hS dir hdir hyp ha
+
+/-- **One direction of a volume, A5.4 as coded on the list of rows = `refineDir`** (`refineVolRows_is_refineDir`
+    read through `refineDirCoded`; points of dimension `d > 0`). -/
+theorem refineDir_as_coded_eq_model_volume (d : ℕ) (S : Shape K) (hS : VolWF d S) (hd : 0 < d) (dir : ℕ) (hdir : dir < 3)
+    (density : ℕ) (tol : K) (h0 : 0 ≤ tol) (hyp : DirHyp S dir density tol) (ha : DirHypA54 S dir) :
+    refineDirCoded S dir density tol = refineDir S dir density tol :=
+  refineDirCoded_volume d S density tol h0 hS hd dir hdir hyp ha
+
+/-- **`refine_knotvector` on a curve object through A5.4 as coded = the specification-level model** (object, flag). -/
+theorem refineKnotvector_as_coded_eq_model_curve (d : ℕ) (S : Shape K) (hS : CurveObjWF d S) (dens : List ℕ) (tol : K)
+    (h0 : 0 ≤ tol) (hd : dens.getD 0 0 ≠ 0 → DirHyp S 0 (dens.getD 0 0) tol ∧ DirHypA54 S 0) :
+    refineKnotvectorCoded S dens tol = refineKnotvector S dens tol :=
+  refineKnotvectorCoded_curve d S hS.degs hS.size hS.wf dens tol h0 hd
+
+/-- **`refine_knotvector` on a surface through A5.4 as coded = the specification-level model** (object and flag):
+    any subset of the two directions, any densities; each direction is applied to the object as the earlier one
+    left it, the hypotheses are on the original object and only for the selected directions. -/
+theorem refineKnotvector_as_coded_eq_model_surface (d : ℕ) (S : Shape K) (hS : SurfWF d S) (dens : List ℕ) (tol : K)
+    (h0 : 0 ≤ tol)
+    (hd : ∀ dir, dir < 2 → dens.getD dir 0 ≠ 0 → DirHyp S dir (dens.getD dir 0) tol ∧ DirHypA54 S dir) :
+    refineKnotvectorCoded S dens tol = refineKnotvector S dens tol :=
+  refineKnotvectorCoded_surface d S hS dens tol h0 hd
+
+/-- **`refine_knotvector` on a volume through A5.4 on rows as coded = the specification-level model.** -/
+theorem refineKnotvector_as_coded_eq_model_volume (d : ℕ) (S : Shape K) (hS : VolWF d S) (hd0 : 0 < d) (dens : List ℕ)
+    (tol : K) (h0 : 0 ≤ tol)
+    (hd : ∀ dir, dir < 3 → dens.getD dir 0 ≠ 0 → DirHyp S dir (dens.getD dir 0) tol ∧ DirHypA54 S dir) :
+    refineKnotvectorCoded S dens tol = refineKnotvector S dens tol :=
+  refineKnotvectorCoded_volume d S hS hd0 dens tol h0 hd
+
+/-- **Refinement through the loops as coded never changes the shape, curves**: the object `refine_knotvector`
+    computes with A5.4 as coded is a well-formed curve object and every point of the closed domain is unchanged. -/
+theorem refine_as_coded_preserves_curve (d : ℕ) (S : Shape K) (hS : CurveObjWF d S) (dens : List ℕ) (tol : K)
+    (h0 : 0 ≤ tol) (hd : dens.getD 0 0 ≠ 0 → DirHyp S 0 (dens.getD 0 0) tol ∧ DirHypA54 S 0)
+    (u : K) (hlo : fnOf (S.kv 0) (S.deg 0) ≤ u) (hhi : u ≤ fnOf (S.kv 0) (S.size 0)) (j : ℕ) :
+    CurveObjWF d (refineKnotvectorCoded S dens tol).1 ∧
+    (curveEval (refineKnotvectorCoded S dens tol).1 u).getD j 0 = (curveEval S u).getD j 0 := by
+  rw [refineKnotvectorCoded_curve d S hS.degs hS.size hS.wf dens tol h0 hd]
+  exact refineKnotvector_preserves_curve d S hS dens tol h0 (fun h => (hd h).1) u hlo hhi j
+
+/-- **Refinement through the loops as coded never changes the shape, surfaces**: any subset of the two directions,
+    any densities; well-formed result, every surface point of the domain unchanged. -/
+theorem refine_as_coded_preserves_surface (d : ℕ) (S : Shape K) (hS : SurfWF d S) (dens : List ℕ) (tol : K)
+    (h0 : 0 ≤ tol)
+    (hd : ∀ dir, dir < 2 → dens.getD dir 0 ≠ 0 → DirHyp S dir (dens.getD dir 0) tol ∧ DirHypA54 S dir)
+    (u v : K) (hu1 : fnOf (S.kv 0) (S.deg 0) ≤ u) (hu2 : u ≤ fnOf (S.kv 0) (S.size 0))
+    (hv1 : fnOf (S.kv 1) (S.deg 1) ≤ v) (hv2 : v ≤ fnOf (S.kv 1) (S.size 1)) (j : ℕ) :
+    SurfWF d (refineKnotvectorCoded S dens tol).1 ∧
+    (surfEval (refineKnotvectorCoded S dens tol).1 u v).getD j 0 = (surfEval S u v).getD j 0 := by
+  rw [refineKnotvectorCoded_surface d S hS dens tol h0 hd]
+  exact refineKnotvector_preserves_surface d S hS dens tol h0 (fun h => (hd 0 (by omega) h).1)
+    (fun h => (hd 1 (by omega) h).1) u v hu1 hu2 hv1 hv2 j
+
+/-- **Refinement through the loops as coded never changes the shape, volumes**: any subset of the three directions,
+    any densities, every direction through gather / A5.4 on rows / scatter; well-formed result with the same degrees,
+    every volume point of the domain unchanged. -/
+theorem refine_as_coded_preserves_volume (d : ℕ) (S : Shape K) (hS : VolWF d S) (hd0 : 0 < d) (dens : List ℕ) (tol : K)
+    (h0 : 0 ≤ tol)
+    (hd : ∀ dir, dir < 3 → dens.getD dir 0 ≠ 0 → DirHyp S dir (dens.getD dir 0) tol ∧ DirHypA54 S dir)
+    (u v w : K) (hu1 : fnOf (S.kv 0) (S.deg 0) ≤ u) (hu2 : u ≤ fnOf (S.kv 0) (S.size 0))
+    (hv1 : fnOf (S.kv 1) (S.deg 1) ≤ v) (hv2 : v ≤ fnOf (S.kv 1) (S.size 1))
+    (hw1 : fnOf (S.kv 2) (S.deg 2) ≤ w) (hw2 : w ≤ fnOf (S.kv 2) (S.size 2)) (j : ℕ) :
+    VolWF d (refineKnotvectorCoded S dens tol).1 ∧ (refineKnotvectorCoded S dens tol).1.degs = S.degs ∧
+    (volEval (refineKnotvectorCoded S dens tol).1 u v w).getD j 0 = (volEval S u v w).getD j 0 := by
+  rw [refineKnotvectorCoded_volume d S hS hd0 dens tol h0 hd]
+  have r := refineKnotvector_preserves_volume d S hS dens tol h0 (fun dir hdir h => (hd dir hdir h).1)
+    u v w hu1 hu2 hv1 hv2 hw1 hw2 j
+  exact ⟨r.1, r.2.1, r.2.2.2⟩
+
+/-! ### non-vacuity of the (G) hypotheses -/
+
+/-- the quadratic of (A) as a curve object -/
+def exCurve : Shape ℚ where
+  rat := false
+  degs := [2]
+  kvs := [[0,0,0,1/2,1,1,1]]
+  sizes := [4]
+  net := [[0,0],[1,2],[2,0],[3,1]]
+
+example : CurveObjWF 2 exCurve where
+  degs := rfl
+  kvs := rfl
+  sizes := rfl
+  size := rfl
+  wf := ⟨mono_of_pairwise _ (by decide +kernel), by decide, by decide, by decide +kernel,
+    by intro pt hpt; simp [exCurve] at hpt; rcases hpt with h | h | h | h <;> simp [h]⟩
+
+example : DirHyp exCurve 0 1 (1/10000000) ∧ DirHypA54 exCurve 0 :=
+  ⟨⟨clampedEnd_of_drop _ _ (by decide) (by decide +kernel), by unfold SepBy; decide +kernel⟩, by unfold DirHypA54; decide +kernel⟩
+
+/-- `refine_knotvector(curve, [1])` through A5.4 as coded: the arrays of (F) -/
+example : (refineKnotvectorCoded exCurve [1] (1/10000000)).2 = true ∧
+    (refineKnotvectorCoded exCurve [1] (1/10000000)).1.kvs = [[0,0,0,1/4,1/4,1/2,1/2,3/4,3/4,1,1,1]] ∧
+    (refineKnotvectorCoded exCurve [1] (1/10000000)).1.net
+      = [[0,0],[1/2,1],[7/8,5/4],[5/4,3/2],[3/2,1],[7/4,1/2],[17/8,1/2],[5/2,1/2],[3,1]] := by decide +kernel
+
+/-- the example surface: clamped at the start, no knot more than `p + 1` times, in both directions … -/
+example : DirHypA54 exSurf 0 ∧ DirHypA54 exSurf 1 := by unfold DirHypA54; decide +kernel
+
+/-- … so `refine_knotvector(surface, [2, 1])` through A5.4 as coded IS the specification-level model … -/
+example : refineKnotvectorCoded exSurf [2, 1] (1/10000000) = refineKnotvector exSurf [2, 1] (1/10000000) :=
+  refineKnotvector_as_coded_eq_model_surface 3 exSurf
+    { degs := rfl, kvs := rfl, sizes := rfl, netlen := rfl,
+      net := by intro pt hpt; simp [exSurf] at hpt; rcases hpt with h | h | h | h | h | h | h | h <;> simp [h],
+      dir0 := ⟨mono_of_pairwise _ (by decide +kernel), rfl, by decide, by decide +kernel⟩,
+      dir1 := ⟨mono_of_pairwise _ (by decide +kernel), rfl, by decide, by decide +kernel⟩ }
+    [2, 1] _ (by norm_num)
+    (fun dir hdir _ => by
+      rcases (by omega : dir = 0 ∨ dir = 1) with rfl | rfl
+      · exact ⟨⟨clampedEnd_of_drop _ _ (by decide) (by decide +kernel), by unfold SepBy; decide +kernel⟩, by unfold DirHypA54; decide +kernel⟩
+      · exact ⟨⟨clampedEnd_of_drop _ _ (by decide) (by decide +kernel), by unfold SepBy; decide +kernel⟩, by unfold DirHypA54; decide +kernel⟩)
+
+/-- … and a concrete run of the loops as coded on it (both knot vectors refined) -/
+example : (refineKnotvectorCoded exSurf [2, 1] (1/10000000)).2 = true ∧
+    (refineKnotvectorCoded exSurf [2, 1] (1/10000000)).1.kvs
+      = [[0,0,1/4,1/2,3/4,1,1], [0,0,0,1/4,1/4,1/2,1/2,3/4,3/4,1,1,1]] := by decide +kernel
+
+/-- the example volume, all three directions through A5.4 on rows as coded -/
+example : (refineKnotvectorCoded exVolQ [1, 1, 1] (1/10000000)).2 = true ∧
+    (refineKnotvectorCoded exVolQ [1, 1, 1] (1/10000000)).1.sizes = [3, 3, 9] := by decide +kernel
 
 end C05
